@@ -34,6 +34,9 @@ PROP_SETTERS = {
 }
 
 
+READ_ONLY_PIDS = (0x0015, 0x004B, 0x021E)       # known to the client, reported by units, not encodable for a write
+
+
 def run_direct(plan):
     """The second observation point of the property: Command subclasses' tobytes(), used directly (a caller that
     builds its own commands), many in one process, in any order and with every attribute value."""
@@ -42,6 +45,7 @@ def run_direct(plan):
     res = Result()
     C = w.ns.command
     n = [0]
+    refused = [0]
 
     def build(spec):
         k = spec[0]
@@ -72,7 +76,15 @@ def run_direct(plan):
         prev = None
         for spec in plan["commands"]:
             cmd, ftype, first = build(spec)
-            frame = cmd.tobytes()
+            try:
+                frame = cmd.tobytes()
+            except NotImplementedError:
+                if spec[0] == "setprops" and any(pid in READ_ONLY_PIDS for pid, _v in spec[1]):
+                    # a write of a property this client cannot encode is refused: nothing is emitted
+                    w.fire("unencodable_property_write_refused")
+                    refused[0] += 1
+                    continue
+                raise
             n[0] += 1
             try:
                 req = codec.frame_parse_strict(frame)
@@ -92,7 +104,15 @@ def run_direct(plan):
                         return
                 elif first == b"\xb0":
                     recs = acmodel.parse_b0_set(body)
-                    if [p for p, _v in recs] != [p for p, _v in spec[1]]:
+                    if any(pid in READ_ONLY_PIDS for pid, _v in spec[1]):
+                        # emitted after all: whatever was emitted has to be a well-formed write of requested ids
+                        want = [p for p, _v in spec[1]]
+                        it = iter(want)
+                        if not all(p in it for p, _v in recs):
+                            res.fail("device-side strict parser rejected a command (b0: records differ from the requested ones)",
+                                     f"{spec}: {[hex(p) for p, _v in recs]}")
+                            return
+                    elif [p for p, _v in recs] != [p for p, _v in spec[1]]:
                         res.fail("device-side strict parser rejected a command (b0: records differ from the requested ones)",
                                  f"{spec}: {[hex(p) for p, _v in recs]}")
                         return
@@ -101,10 +121,11 @@ def run_direct(plan):
             except codec.RefError as e:
                 res.fail(f"device-side strict parser rejected a command ({e})", f"{spec}: {bytes(frame).hex()}")
                 return
-            if prev is not None and req["msg_id"] != (prev + 1) & 0xFF:
+            if prev is not None and req["msg_id"] not in {(prev + 1 + g) & 0xFF for g in range(refused[0] + 1)}:
                 res.fail("message id does not advance by one modulo 256", f"{prev} -> {req['msg_id']} at command {n[0]}")
                 return
             prev = req["msg_id"]
+            refused[0] = 0
 
     try:
         w.run(main)
@@ -395,6 +416,20 @@ def space(tier):
                                      "target_humidity": rng.randint(0, 100), "aux_heat": rng.random() < 0.5}])
         return {"mode": "direct", "commands": cmds, "msg_id_start": rng.choice([0, 200, 250, 255, 65535])}
     sp.add("commands_built_directly", 600 if tier == "quick" else 60_000, direct)
+
+    def direct_ro(j, rng):
+        # the same, with property writes that name ids the client knows but cannot encode (indoor humidity, fresh
+        # air, anion) among encodable ones: refused as a whole, or emitted well formed
+        plan = direct(j, rng)
+        cmds = plan["commands"]
+        for _ in range(rng.randint(1, 4)):
+            pids = rng.sample(SETTABLE_PIDS, rng.randint(0, 3)) + rng.sample(list(READ_ONLY_PIDS), rng.randint(1, 2))
+            rng.shuffle(pids)
+            cmds.insert(rng.randrange(0, len(cmds) + 1),
+                        ["setprops", [[pid, (rng.random() < 0.5) if pid in (0x0018, 0x001A, 0x0039, 0x00E3) else
+                                       rng.choice([0, 1, 2, 50, 100])] for pid in pids]])
+        return plan
+    sp.add("property_writes_naming_unencodable_ids", 300 if tier == "quick" else 20_000, direct_ro)
     sp.add("long_histories", 60 if tier == "quick" else 6000, lambda j, rng: gen(j, rng, 260), wall_limit=600)
     sp.add("short_histories", 2400 if tier == "quick" else 40_000, lambda j, rng: gen(j, rng, 30))
 
